@@ -56,7 +56,14 @@ type spSend struct {
 	Change bool        `json:"change"`
 }
 
+type spAcctBal struct {
+	Total     []int   `json:"total"`
+	Immature  []int   `json:"immature"`
+	Spendable [][]int `json:"spendable"`
+}
+
 type spObs struct {
+	AcctBal     []spAcctBal   `json:"acctBal"`
 	Tip         int           `json:"tip"`
 	St          []interface{} `json:"st"`
 	SpentBy     []int         `json:"spentBy"`
@@ -737,6 +744,23 @@ func (w *spWorld) observe(exp *spObs) {
 			w.add("balance", fmt.Sprintf("CalculateBalance(%d)", mc), err.Error(), "ok")
 		} else if int64(bal) != w.sumVal(cs) {
 			w.add("balance", fmt.Sprintf("CalculateBalance(%d)", mc), int64(bal), fmt.Sprintf("%d (coins %v)", w.sumVal(cs), sorted(cs)))
+		}
+	}
+	// per-account balances (any key scope)
+	for a, ab := range exp.AcctBal {
+		for mc, cs := range ab.Spendable {
+			b, err := e.w.CalculateAccountBalances(uint32(a), int32(mc))
+			w.n++
+			what := fmt.Sprintf("CalculateAccountBalances(account %d, minconf %d)", a, mc)
+			if err != nil {
+				w.add("balance", what, err.Error(), "ok")
+				continue
+			}
+			got := fmt.Sprintf("total=%d spendable=%d immature=%d", int64(b.Total), int64(b.Spendable), int64(b.ImmatureReward))
+			want := fmt.Sprintf("total=%d spendable=%d immature=%d", w.sumVal(ab.Total), w.sumVal(cs), w.sumVal(ab.Immature))
+			if got != want {
+				w.add("balance", what, got, want+fmt.Sprintf(" (coins %v / %v / %v)", sorted(ab.Total), sorted(cs), sorted(ab.Immature)))
+			}
 		}
 	}
 	// created transactions
